@@ -491,6 +491,18 @@ def c18_stages(ctx):
     lib.taproot_stage(ctx)
 
 
+# ------------------------------------------------------------------------ C14
+def c14_slices(tier):
+    return [dict(name="A_adversarial_combinations", module="C14", invariants=["InvTotal", "Emit"], consts=consts(
+        11, Probes='{"agg_maps","sign_kp","vshare","dkg_lens","recon","repair","refresh"}', DomH3="{2,5}", DomH1="{5}",
+        DomH2="{3}", DomHDKG="{4}", EMIT="TRUE"))]
+
+
+def c14_stages(ctx):
+    import lib
+    lib.fuzz_stage(ctx)
+
+
 PROPS = {
     "C01": dict(slices=c01_slices, fatal=C01_FATAL, traces=True, level="model_checking",
                 rule="TLC enumerates every behaviour of the C01 schedule within each slice's constants; "
@@ -589,6 +601,19 @@ PROPS = {
                            "the design, the trace specification binds the real suite to the model's outcome rules (DESIGN 7, C18)",
                 assumptions=["TLC 1.8.0", "libsecp256k1 (secp256k1 crate) and sha2 as independent BIP-340/341 implementation",
                              "parities observed through the public EvenY trait"]),
+    "C14": dict(slices=c14_slices, fatal={"*:panic", "*:ok"}, traces=True, trace_opts=dict(n_quick=400, n_thorough=2000),
+                stages=[c14_stages], level="exploration",
+                rule="(1) adversarial combinations of otherwise valid peer messages enumerated by TLC from spec/props/C14.tla "
+                     "(inconsistent maps, empty containers, thresholds 0/1/65535, commitment vectors of every length, duplicated "
+                     "packages, bad helper / identifier lists), replayed on the toy suite and recorded on the witness field and the "
+                     "six real suites under catch_unwind with overflow checks and debug assertions; (2) every decoder of every suite "
+                     "fed valid encodings, every single-bit deviation, boundary bytes, structure-aware mutations of containers "
+                     "(each position x boundary values, truncation at every position, insertions, huge length prefixes) and seeded "
+                     "random strings; non-trivial = distinct input that is not a valid encoding / distinct adversarial scenario",
+                level_note="a panic needs one reachable input: this is exploration, not exhaustion (DESIGN 6.3); the model contributes "
+                           "the structured input space, raw bytes are explored by the harness",
+                assumptions=["the harness's dev profile keeps overflow-checks and debug-assertions on",
+                             "catch_unwind observes every panic (panic = abort is not configured)"]),
     "C04": dict(slices=c04_slices, fatal=C04_FATAL, level="model_checking", traces=True,
                 rule="TLC enumerates every filling of the share slots (honest / off by d / negated / zero / another "
                      "signer's / another session's share) for every signer subset within the slice constants and runs "
